@@ -940,6 +940,10 @@ def _focus_cases(rng):
         out.append({'kind': 'hist', 'pool': [curve(2, [0, 0, 1, 1, 2, 2])], 'ops': [{'op': 'raise', 'i': 0, 'amounts': [1], 'dir': None}]})
         out.append({'kind': 'hist', 'pool': [curve(3, [0, 0, 0, 1, 2, 2, 2], rational=True)],
                     'ops': [{'op': 'insert', 'i': 0, 'dir': 0, 'refs': [['k', 0]]}, {'op': 'raise', 'i': 0, 'amounts': [1], 'dir': None}]})
+        # lower_order interpolates the homogeneous control points: the new weights need not be positive
+        out.append({'kind': 'hist', 'pool': [{'bases': [{'order': 4, 'knots': [0.0] * 4 + [8.0] * 4, 'periodic': -1}],
+                                              'cps': [[0.0, 0.0, 3.0], [0.5, 0.5, 0.5], [2.0, 0.0, 1.0], [6.0, 2.0, 2.0]], 'rational': True}],
+                    'ops': [{'op': 'lower', 'i': 0, 'lowers': [1]}]})
         # periodic insertion into a basis with n < p + k functions
         out.append({'kind': 'hist', 'pool': [curve(2, [-3, 0, 3, 6], 0)], 'ops': [{'op': 'insert', 'i': 0, 'dir': 0, 'refs': [['m', 0, 0.5]]}]})
         out.append({'kind': 'hist', 'pool': [curve(3, [-2, -1, 0, 1, 2, 3, 4], 1)], 'ops': [{'op': 'split', 'i': 0, 'dir': 0, 'refs': [['m', 0, 0.5]]}]})
